@@ -32,11 +32,20 @@
                                            C06_grid_estimate_absolute_refuted)
      C06_block_items_absolute_flagged      block: absolute children stay in the item list; changing such a child's style changes
                                            that one item only (same length, same `order`s)
-     C06_block_source_predicates           the tests of the hand-written model are the predicates found in the source *)
+     C06_block_source_predicates           the tests of the hand-written model are the predicates found in the source
+   BLOCK ALGORITHM as a resumption (Model/BlockAlg.v: compute_inner over the engine interface -- translated item pipeline,
+   measuring queries of determine_content_based_container_width, the in-flow step function of Model/Block.v with the child
+   outputs as ANSWERS, the absolute pass as arbitrary traffic addressed to the absolute item's own node, the hidden pass):
+     C06_block_algorithm_abs_blind         AbsBlind HOLDS for it (ab = box-generating and position:absolute; oeq / leq = equal
+                                           up to content_size): no longer a premise for block containers
+     C06_block_engine_instance             hence the conclusion of C06_abs_blind_engine for every engine whose nodes are block
+                                           containers or leaves
+     C06_block_resumption_runs_kernel      the in-flow part of the resumption, answered by any function, hands on exactly the
+                                           state and records of Model/Block.v `inflow_loop` (what C10's K2 runs) *)
 From Coq Require Import List Bool Arith NArith ZArith Lia.
 From TV Require Import Model.Engine Model.EngineToy Proofs.EngineMemo Proofs.EngineBlind Proofs.EngineAbs Proofs.EngineAbsToy.
 From TV Require Import Num.Num Gen.BlockGen Model.Block Proofs.BlockBlind.
-From TV Require Import Model.FiltersBase Gen.FiltersGen Model.ItemFilters Proofs.ItemFilters.
+From TV Require Import Model.FiltersBase Gen.FiltersGen Model.ItemFilters Proofs.ItemFilters Model.BlockAlg Proofs.BlockAlgBlind.
 From TV Require Import Model.PlacementBase Gen.PlacementGen Model.Placement Proofs.PlacementBlind.
 Import ListNotations.
 
@@ -250,6 +259,53 @@ Proof.
   destruct a_run as (o & t & o' & t' & E & E' & A & B & C & _). exists o, t, o', t'. repeat split; assumption.
 Qed.
 
+(* ---------------------------------------------------------------------------------------------- the block algorithm *)
+
+Theorem C06_block_algorithm_abs_blind :
+  forall (T : Type) (N : Num T) (pre : BStyle T -> BIn T -> BIn T) (abs_child : @AbsChild T),
+    AbsChildLocal abs_child ->
+    AbsBlind (BStyle T) (BIn T) (ChildOut T) (BLayout T) (block_alg pre abs_child) bs_visible_absolute out_eq lay_eq.
+Proof. intros T N pre abs_child Hloc. apply block_alg_abs_blind. exact Hloc. Qed.
+
+(* engines made of block containers (sel s = true) and leaves: two trees that coincide up to content_size outside the
+   subtrees of box-generating absolute nodes stay so through any pair of evaluations, and every node that is not itself such
+   a node returns the same output up to content_size *)
+Theorem C06_block_engine_instance :
+  forall (T : Type) (N : Num T) (pre : BStyle T -> BIn T -> BIn T) (abs_child : @AbsChild T)
+         (sel : BStyle T -> bool) (leaf : BStyle T -> BIn T -> ChildOut T)
+         (mode : BIn T -> RunMode) (in_eqb : BIn T -> BIn T -> bool) (is_none : BStyle T -> bool)
+         (hidden_out : ChildOut T) (zero_lay : BLayout T),
+    AbsChildLocal abs_child ->
+    let algo := fun s st i => if sel s then block_alg pre abs_child s st i
+                              else Engine.Ret (BIn T) (ChildOut T) (BLayout T) (leaf s i) in
+    forall f f' t t' i o t1 o' t1',
+      asim (BStyle T) (BIn T) (ChildOut T) (BLayout T) bs_visible_absolute out_eq lay_eq t t' ->
+      memo (BStyle T) (BIn T) (ChildOut T) (BLayout T) mode in_eqb is_none hidden_out zero_lay algo f t i = Some (o, t1) ->
+      memo (BStyle T) (BIn T) (ChildOut T) (BLayout T) mode in_eqb is_none hidden_out zero_lay algo f' t' i = Some (o', t1') ->
+      asim (BStyle T) (BIn T) (ChildOut T) (BLayout T) bs_visible_absolute out_eq lay_eq t1 t1' /\
+      (bs_visible_absolute (style_of (BStyle T) (BIn T) (ChildOut T) (BLayout T) t) = false -> out_eq o o').
+Proof.
+  intros T N pre abs_child sel leaf mode in_eqb is_none hidden_out zero_lay Hloc algo f f' t t' i o t1 o' t1' Hs E E'.
+  eapply (C06_abs_blind_engine (BStyle T) (BIn T) (ChildOut T) (BLayout T) mode in_eqb is_none hidden_out zero_lay algo
+            bs_visible_absolute out_eq lay_eq); eauto.
+  - apply out_eq_refl.
+  - apply lay_eq_refl.
+  - apply AbsBlind_dispatch; [apply block_alg_abs_blind; exact Hloc|apply AbsBlind_leaf; apply out_eq_refl].
+Qed.
+
+(* the premise on the absolute-item routine is satisfiable *)
+Example C06_block_algorithm_example :
+  forall (T : Type) (N : Num T), AbsChildLocal (abs_child_simple (T := T)).
+Proof. intros T N. apply abs_child_simple_local. Qed.
+
+Theorem C06_block_resumption_runs_kernel :
+  forall (T : Type) (N : Num T) (ans : nat -> BIn T -> ChildOut T) (P : Params T) (items : list (@AItem T)) st acc k,
+    exists fuel0, forall fuel,
+      answer ans (fuel0 + fuel) (inflow_alg P st items acc k) =
+      answer ans fuel (k (fst (inflow_loop P st (answered ans P items)))
+                         (rev acc ++ combine items (snd (inflow_loop P st (answered ans P items))))).
+Proof. intros T N ans P items st acc k. apply inflow_alg_is_inflow_loop. Qed.
+
 Print Assumptions C06_grid_never_placed.
 Print Assumptions C06_grid_estimate_absolute_refuted.
 Print Assumptions C06_grid_estimate_absolute_refuted_sibling.
@@ -262,3 +318,6 @@ Print Assumptions C06_flex_items_ignore_absolute.
 Print Assumptions C06_grid_items_ignore_absolute.
 Print Assumptions C06_block_items_absolute_flagged.
 Print Assumptions C06_block_source_predicates.
+Print Assumptions C06_block_algorithm_abs_blind.
+Print Assumptions C06_block_engine_instance.
+Print Assumptions C06_block_resumption_runs_kernel.
